@@ -38,3 +38,44 @@ def _core_prop(pid, title, fields, technique, level_text, level_note, rule=None,
         design_ref="§8 " + pid,
         rule=rule or "core stream: PRNG histories over 2-6 replicas, 1-4 writers, 3 orderings of append/join/joinN/load/iterate/setIdentity followed by a complete exchange; distinct = distinct operation-shape hashes; non-trivial = at least one fork (two replicas appending concurrently) and one join of overlapping logs",
     )
+
+CORE_NOTE = ("Trusted: Lean kernel; content addressing (an append is given a fresh hash: distinct entries have distinct CIDs — SHA-256 collision freedom); "
+             "Go's sort.SliceStable being a correct stable sort beyond 20 elements (insertion sort is modelled exactly; under a strict total order the result is unique, proved); "
+             "the hand-written model of log.go/entry_map.go/utils.go/sorting.go, validated on every run by replaying PRNG histories of the real library on the model and comparing entries, heads, values, snapshots, appended entries, iterator output after every operation; "
+             "harness, driver, check script.")
+
+_core_prop("C01", "Replicas that merged the same entries converge (join is a CRDT merge)",
+    r"(join|append|setid|exchange|init)/(entries|len|values|heads|rawheads|snapshot\..*|json\.heads|join\..*|clock)",
+    "Lean 4: invariant induction over all histories (reachable_inv), difference/join-heads specs, uniqueness of sorted permutations; differential replay of real histories incl. complete exchanges",
+    "Kernel-checked: for every system reachable by any finite history of appends, unbounded joins (any order/grouping/repetition), identity changes over any number of replicas and writers, two replicas with the same merged-entry set (ghost `know`) have the same entries and heads (convergence), and the same Values() when the ordering is a strict total order on them (convergence_values); the entry set of a join is the union, hence join_comm/assoc/idem; self-join, other-id join and empty join change nothing. Tied to the code by replaying random multi-replica histories + complete exchanges in PRNG order and comparing every observation.",
+    CORE_NOTE)
+_core_prop("C02", "Heads are exactly the entries nothing else in the log points to",
+    r"(join|append|setid|exchange|init)/(heads|rawheads|snapshot\.heads|json\.heads)",
+    "Lean 4: heads clause of the replica invariant preserved by append and by the three head filters of Join (join_heads_spec), for all reachable states",
+    "Kernel-checked: in every reachable state h is a head iff it is an entry no entry names (heads_spec), heads are non-empty for a non-empty log, a duplicate-free subset of the entries; Heads() is the same set. Correspondence: Heads(), RawHeads(), ToSnapshot().Heads, ToJSONLog().Heads of the real log compared with the model after every operation, and the decidable predicate headsOk evaluated on the implementation's own state.",
+    CORE_NOTE)
+_core_prop("C03", "Values() is a complete, duplicate-free, causally ordered linearisation",
+    r"(join|append|setid|exchange|init)/(values|snapshot\.values)",
+    "Lean 4: worklist invariant of traverse (traverse_spec), every entry lies below a head, uniqueness of the sorted permutation",
+    "Kernel-checked: in every reachable state with a strict total order on the entries present (always for the hash tie-break, for the default ordering without ties) Values() is a permutation of the entries without duplicates, sorted, with no entry before one of its predecessors, and a function of the entry set only. Correspondence: Values()/ToSnapshot().Values compared with the model after every operation; valuesOk evaluated on the implementation.",
+    CORE_NOTE)
+_core_prop("C04", "Every appended entry dominates the log it was appended to",
+    r"append/.*",
+    "Lean 4: theorems on the transcription of Append (predecessors = heads, clock above every entry via every_entry_below_some_head, single new head, references inside the log and disjoint from predecessors)",
+    "Kernel-checked for every reachable log, writer and pointer count (any integer): next = the heads (list: reversed sorted heads), clock id = the log's writer key, clock time strictly above every entry incl. merged ones, the entry becomes the single head, skip references are distinct entries of the log and not predecessors, and every entry of the log is in the new entry's causal past. The logarithmic bound on the number of references is evaluated on every implementation append (appendOk) and by model = implementation on refs; its Lean proof is not done yet (stated in DESIGN.md).",
+    CORE_NOTE)
+_core_prop("C05", "The log is append-only: entries never change or vanish",
+    r"(join|append|setid|exchange)/(entries|len|values|snapshot\.values)",
+    "Lean 4: monotonicity of every step of the system model (step_mono), sorted-sublist lemma (values_sublist); known finding lww-tie-order proved as a concrete counterexample",
+    "Kernel-checked: every operation keeps every entry of every replica retrievable by hash with identical content, never decreases the count, changes only the target replica, and the new Values() contains the old one as a subsequence whenever the ordering is a strict total order on the new entries (values_subsequence_partial). Without that premise the claim is FALSE for the default ordering (two entries of one writer with equal clock time): proved by a concrete model counterexample and reproduced on the implementation — recorded as known finding lww-tie-order. Pointer aliasing between instances cannot occur in the model (immutable values); entry immutability is checked by the harness on hashes.",
+    CORE_NOTE)
+_core_prop("C15", "Iteration returns the requested causal range, newest first, and always ends",
+    r"iter/.*",
+    "Lean 4: theorems on the transcription of Iterator; traversal-free specification iterSpec evaluated on every implementation call",
+    "Kernel-checked on the model of Iterator: success always closes the channel (also amount 0 and amounts beyond the range), unknown upper bounds are errors that leave the channel untouched, the default iteration is the full linearisation newest first, at most `amount` entries. The full range statement (iterSpec) for arbitrary related bounds is evaluated on every implementation call and compared with the model; its general Lean proof covers unreferenced roots (traverse_spec) — see DESIGN.md.",
+    CORE_NOTE)
+_core_prop("C16", "A size-bounded merge keeps exactly the newest entries of the full merge",
+    r"joinN/.*",
+    "Lean 4: theorems on the transcription of Join with a size bound",
+    "Kernel-checked on the model: the bounded join holds exactly the last min(n,total) values of the unbounded join's linearisation with heads recomputed over them; a bound >= total equals the unbounded join; the model has no panic outcome and the harness records a panic of the implementation as an outcome. Correspondence: bounds 0..total+3 on forked pairs.",
+    CORE_NOTE)
